@@ -96,8 +96,9 @@ theorem setWhileBN_noBN {pcs : Classes} (h : NoBN pcs) (it : List Nat) (v : Bidi
 theorem setRange_one {α} (xs : List α) (i : Nat) (v : α) : setRange xs i 1 v = xs.set i v := by
   simp [setRange]
 
-/-- the crate's "following NSMs" loop is the Spec's `nsmAfter` when there is no BN -/
-theorem setWhileNsm_spec (ocs : Classes) (v : BidiClass) (hv : v ≠ BN) (n : Nat) :
+/-- the crate's "following NSMs" loop is the Spec's `nsmAfter` when nothing is removed by X9 -/
+theorem setWhileNsm_spec (ocs : Classes) (v : BidiClass) (hv : v ≠ BN) (n : Nat)
+    (hocs : ∀ i < n, ¬ (cget ocs i).removedByX9 = true) :
     ∀ (fuel a : Nat) (xs : Classes), NoBN xs → xs.length = n → n ≤ a + fuel →
       setWhileNsmOrBN ocs xs (List.range' a (n - a)) v =
         Spec.n0One.nsmAfter (ocs.map (· == NSM)) v fuel a xs := by
@@ -118,11 +119,9 @@ theorem setWhileNsm_spec (ocs : Classes) (v : BidiClass) (hv : v ≠ BN) (n : Na
     · have hr : n - a = (n - (a + 1)) + 1 := by omega
       rw [hr, List.range'_succ]
       simp only [setWhileNsmOrBN]
-      have hb : (cget xs a == BN) = false := by simpa using hbn a
-      simp only [hb, Bool.or_false]
       split
       · exact ih (a + 1) (xs.set a v) (hbn.set a hv) (by simpa using hlen) (by omega)
-      · rfl
+      · rw [if_neg (hocs a han)]
     · have hr : n - a = 0 := by omega
       rw [hr]
       simp only [List.range'_zero, setWhileNsmOrBN]
@@ -210,7 +209,8 @@ theorem nsmAfter_props (M : List Bool) (v : BidiClass) (hv : v ≠ BN) :
     · exact ⟨rfl, h⟩
 
 /-- the five writes of `n0Pair` are the Spec's two writes and two NSM sweeps -/
-theorem n0_writes (ocs pcs : Classes) (hnb : NoBN pcs) (n : Nat) (hpl : pcs.length = n) (o c : Nat)
+theorem n0_writes (ocs pcs : Classes) (hnb : NoBN pcs) (n : Nat) (hpl : pcs.length = n)
+    (hocs : ∀ i < n, ¬ (cget ocs i).removedByX9 = true) (o c : Nat)
     (it : List Nat) (v : BidiClass) (hv : v ≠ BN) :
     setWhileNsmOrBN ocs
         (setWhileNsmOrBN ocs (setWhileBN (setRange (setRange pcs o 1 v) c 1 v) it v)
@@ -225,14 +225,15 @@ theorem n0_writes (ocs pcs : Classes) (hnb : NoBN pcs) (n : Nat) (hpl : pcs.leng
   have hX : NoBN ((pcs.set o v).set c v) := (hnb.set o hv).set c hv
   have hXl : ((pcs.set o v).set c v).length = n := by simpa using hpl
   rw [setRange_one, setRange_one, setWhileBN_noBN hX]
-  rw [setWhileNsm_spec ocs v hv n n (o + 1) _ hX hXl (by omega)]
+  rw [setWhileNsm_spec ocs v hv n hocs n (o + 1) _ hX hXl (by omega)]
   have hY := nsmAfter_props (ocs.map (· == NSM)) v hv n (o + 1) _ hX
-  rw [setWhileNsm_spec ocs v hv n n (c + 1) _ hY.2 (by rw [hY.1, hXl]) (by omega)]
+  rw [setWhileNsm_spec ocs v hv n hocs n (c + 1) _ hY.2 (by rw [hY.1, hXl]) (by omega)]
   rw [hXl, hY.1, hXl]
 
 theorem stageN0_pair_simple (t : Text) (hwf : t.WF) (h1 : ∀ s ∈ t.segs, s.len = 1)
     (n : Nat) (hn : t.len = n) (sos eos e : BidiClass) (hs : sos = L ∨ sos = R) (he : e = L ∨ e = R)
     (ocs pcs : Classes) (hpl : pcs.length = n) (hbn : ∀ c ∈ pcs, c ≠ BN)
+    (hocs : ∀ i < n, ¬ (cget ocs i).removedByX9 = true)
     (pair : BracketPair) (hlt : pair.start < pair.stop) (hstop : pair.stop < n)
     (hsr : pair.startRun = 0) (her : pair.endRun = 0) :
     n0Pair t { runs := [(0, n)], sos := sos, eos := eos } e ocs (pcs, none) pair =
@@ -261,7 +262,7 @@ theorem stageN0_pair_simple (t : Text) (hwf : t.WF) (h1 : ∀ s ∈ t.segs, s.le
     at hscan ⊢
   generalize List.filterMap Spec.strongOfN0 (List.drop (o + 1) (List.take c pcs)) = S at hscan ⊢
   generalize (List.filterMap Spec.strongOfN0 (List.take o pcs).reverse).head?.getD sos = Bf at hLR ⊢
-  have hw := fun v hv => n0_writes ocs pcs hnb n hpl o c (List.range' 0 o).reverse v hv
+  have hw := fun v hv => n0_writes ocs pcs hnb n hpl hocs o c (List.range' 0 o).reverse v hv
   have heBN : e ≠ BN := by rcases he with rfl | rfl <;> decide
   have hBBN : Bf ≠ BN := by rcases hLR with rfl | rfl <;> decide
   cases hA : S.contains e
@@ -309,7 +310,7 @@ theorem n0One_props (sos e : BidiClass) (he : e = L ∨ e = R) (M : List Bool) (
 /-- N0 over a list of pairs (single run, single-unit characters, no BN) -/
 theorem stageN0_fold_simple (t : Text) (hwf : t.WF) (h1 : ∀ s ∈ t.segs, s.len = 1)
     (n : Nat) (hn : t.len = n) (sos eos e : BidiClass) (hs : sos = L ∨ sos = R) (he : e = L ∨ e = R)
-    (ocs : Classes) :
+    (ocs : Classes) (hocs : ∀ i < n, ¬ (cget ocs i).removedByX9 = true) :
     ∀ (pairs : List BracketPair) (pcs : Classes), pcs.length = n → NoBN pcs →
       (∀ p ∈ pairs, p.start < p.stop ∧ p.stop < n ∧ p.startRun = 0 ∧ p.endRun = 0) →
       pairs.foldl (n0Pair t { runs := [(0, n)], sos := sos, eos := eos } e ocs) (pcs, none) =
@@ -321,7 +322,7 @@ theorem stageN0_fold_simple (t : Text) (hwf : t.WF) (h1 : ∀ s ∈ t.segs, s.le
     intro pcs hpl hnb hok
     have hp := hok p (by simp)
     simp only [List.foldl_cons, List.map_cons]
-    rw [stageN0_pair_simple t hwf h1 n hn sos eos e hs he ocs pcs hpl hnb.mem p hp.1 hp.2.1 hp.2.2.1 hp.2.2.2]
+    rw [stageN0_pair_simple t hwf h1 n hn sos eos e hs he ocs pcs hpl hnb.mem hocs p hp.1 hp.2.1 hp.2.2.1 hp.2.2.2]
     have hpr := n0One_props sos e he (ocs.map (· == NSM)) pcs hnb (p.start, p.stop)
     exact ih _ (by rw [hpr.1, hpl]) hpr.2 (fun q hq => hok q (by simp [hq]))
 
@@ -346,7 +347,7 @@ theorem stageN_simple (ds : DataSource) (t : Text) (hwf : t.WF) (h1 : ∀ s ∈ 
   have hnb := noBN_of_forall hbn
   have hbd := stageBD16_simple ds t hwf h1 n hn sos eos ocs pcs hpl hocs
   have hok := identifyBracketPairs_simple_ok ds t hwf h1 n hn sos eos ocs pcs
-  have hfold := stageN0_fold_simple t hwf h1 n hn sos eos e hs he ocs _ pcs hpl hnb hok
+  have hfold := stageN0_fold_simple t hwf h1 n hn sos eos e hs he ocs hocs _ pcs hpl hnb hok
   rw [hbd] at hfold
   have hres : ∀ (ts : Classes), ts.length = n → NoBN ts →
       n12 { runs := [(0, n)], sos := sos, eos := eos } e ts = Spec.n12 sos eos e ts :=
